@@ -111,9 +111,11 @@ CHECKS = {
               "index in [0, len) and it is the element at that index, everything else stops (oob_stops); 2^32+k and negative indices are "
               "rejected (no 32-bit narrowing); and for the VM handler itself - the same execData that the lock-step runs tie to vm.c - "
               "OP_ARR_GET raises VM_ERR_OUT_OF_BOUNDS without output for an out-of-range index and pushes exactly es[idx] otherwise "
-              "(vm_arr_get). The native and interpreter range tests are one-line transcriptions; they are tied to the code by whole-program "
+              "(vm_arr_get); OP_ARR_SET / OP_ARR_REMOVE out of range, OP_ARR_POP on an empty array and STRUCT_GET / UNION_FIELD / TUPLE_GET beyond the field count raise the "
+              "error, push nothing, store nothing and print nothing (vm_arr_set_oob, vm_arr_remove_oob, vm_arr_pop_empty, vm_field_oob). The native and interpreter range tests are one-line transcriptions; they are tied to the code by whole-program "
               "runs. Check: NanoVM exhaustively over lengths x 19 boundary indices x get/set/remove/pop/tuple/struct/union field (model vs "
-              "implementation + oracle), native binaries and compile-time interpreter on generated programs."),
+              "implementation + oracle), native binaries and compile-time interpreter on generated programs; element kind (int, float, bool, string, struct, nested array) x "
+              "(typed access, discarded access, store, removal, pop on empty) natively and on the VM from source."),
         note=TB + " Partial: nativeAccess/interpAccess model only the range test of dyn_array.c / eval.c; abort() and exit(1) behaviour of the host is observed, not modelled.",
         technique="Lean 4 proof (case analysis on exact int64 index arithmetic, handler-level theorem) + exhaustive boundary enumeration + differential correspondence",
         design="6/C08"),
@@ -167,7 +169,9 @@ CHECKS = {
               "comparisons, checked reads); the verifier sweep is sound for the positions it walks (verify_sound_walk) and its structural phase "
               "bounds every function inside the code section; on a verified module every reachable VM state keeps a valid frame stack "
               "(<= VM_MAX_FRAMES), a valid current function and fetches only inside the code section, for any instruction budget (run_safe, by "
-              "induction over steps; data instructions cannot produce decoder or table-bounds faults by typing); integer arithmetic incl. "
+              "induction over steps; data instructions cannot produce decoder or table-bounds faults by typing); execute_safe: vm_execute on a "
+              "verified module (__init__, entry point, any budget) never ends in an out-of-table access and - with C14's invariant, for any module - never touches a freed "
+              "or wrongly-typed heap object; integer arithmetic incl. "
               "x/0 and INT64_MIN/-1 is total (vm_arith_total). Termination of loader and verifier is Lean's totality check. The hand-written "
               "loader/verifier/VM models are tied to the C code by running thousands of structure-aware hostile modules through both "
               "(ASan+UBSan build, hook-provided instruction budget) and comparing verdict, output and final state."),
